@@ -290,7 +290,7 @@ func jsVal(v Val) any {
 
 // Standalone renders a replay script for one case.
 func (c *Case) Standalone() string {
-	return "<?php\n// " + c.Key + "\n// expected line: @0\\t" + strings.ReplaceAll(c.Want(), "\t", "\\t") + "\n" + c.PHP(0)
+	return "<?php\n// " + c.Key + "\n// expected line: @0\\t" + strings.ReplaceAll(c.Want(), "\t", "\\t") + "\necho \"" + startMark + "\\n\";\n" + c.PHP(0)
 }
 
 // Nontrivial: the prescribed observable is not what a do-nothing implementation (result
